@@ -1,2 +1,20 @@
 import Gossamer.Props.C34
 open Gossamer.C34
+#print axioms C34_refines
+#print axioms C34_heap_inv
+#print axioms C34_pop_is_max
+#print axioms C34_fifo_among_equal
+#print axioms C34_order_is_insertion
+#print axioms C34_dup_refused
+#print axioms C34_at_most_once
+#print axioms C34_race_free
+#print axioms C34_race_free_counterexample
+#print axioms C34_linearizable
+#print axioms C34_mutual_exclusion
+#print axioms up_ord
+#print axioms down_ord
+#print axioms heapPop_spec
+#print axioms heapRemove_spec
+#print axioms heapPush_spec
+#print axioms Gossamer.Monitor.linearizable
+#print axioms Gossamer.Monitor.no_conflict
